@@ -105,6 +105,44 @@ class SliceOrigin(Contract):
         return out
 
 
+    # -- replay on the real function -----------------------------------------------------------------------------------
+    def concretize(self, model, inp):
+        from pyvc.verify import model_value
+        c = dict(dims=list(self.dims), kind=self.kind, ncols=model_value(model, self.n['COL']), nrows=model_value(model, self.n['ROW']), sel={})
+        for d, s_ in self.sel.items():
+            c['sel'][d] = [model_value(model, x) for x in s_] if isinstance(s_, tuple) else model_value(model, s_)
+        return c
+
+    def concretize_without_model(self, inp):
+        return dict(dims=list(self.dims), kind=self.kind, ncols=6, nrows=5, sel={d: ([-3, -1] if self.kind == 'slice' else -2) for d in self.dims})
+
+    def replay(self, c):
+        from rtc import harness as H, ioapi as IOH
+        P = H.real()
+        out = None
+        for cand in (c, dict(c, ncols=6, nrows=5, sel={d: ([-3, -1] if c['kind'] == 'slice' else -2) for d in c['dims']})):
+            nx, ny = int(cand['ncols']), int(cand['nrows'])
+            if not (1 <= nx <= 40 and 1 <= ny <= 40):
+                continue
+            f = IOH.make_ioapi(P, nt=2, nz=2, ny=ny, nx=nx)
+            kw = {d: (slice(int(v[0]), int(v[1])) if isinstance(v, (list, tuple)) else int(v)) for d, v in cand['sel'].items()}
+            x0, y0 = float(f.XORIG), float(f.YORIG)
+            try:
+                g = f.sliceDimensions(**kw)
+            except Exception as e:
+                r = (False, dict(raised=type(e).__name__, message=str(e)[:160], selectors=repr(kw), ncols=nx, nrows=ny))
+                return r
+            first = lambda d, n: (range(n)[kw[d]][0] if isinstance(kw[d], slice) else range(n)[kw[d]]) if d in kw else 0
+            ex, ey = x0 + first('COL', nx) * float(f.XCELL), y0 + first('ROW', ny) * float(f.YCELL)
+            ok = abs(float(g.XORIG) - ex) < 1e-6 and abs(float(g.YORIG) - ey) < 1e-6 and float(f.XORIG) == x0 and float(f.YORIG) == y0 \
+                and float(g.XCELL) == float(f.XCELL) and float(g.YCELL) == float(f.YCELL)
+            r = (ok, dict(selectors=repr(kw), ncols=nx, nrows=ny, XORIG=float(g.XORIG), expected_XORIG=ex, YORIG=float(g.YORIG), expected_YORIG=ey))
+            if not ok:
+                return r
+            out = out or r
+        return out
+
+
 CONTRACTS = [SliceOrigin(d, k) for d in (('COL',), ('ROW',), ('ROW', 'COL')) for k in ('int', 'slice')]
 
 
@@ -166,6 +204,41 @@ class SliceLevels(Contract):
         return [('one-more-edge-than-layers', eq(vg2.shape[0], add(cnt, 1))),
                 ('edges-are-the-matching-sub-range', Implies(And(ge(j, 0), le(j, cnt)), eq(vg2.get(j), self.vg.get(add(first, j))))),
                 ('origin-unchanged', And(eq(res.attrs['XORIG'], inp['self'].attrs['XORIG']), eq(res.attrs['YORIG'], inp['self'].attrs['YORIG'])))]
+
+
+    def concretize(self, model, inp):
+        from pyvc.verify import model_value
+        return dict(kind=self.kind, nlays=model_value(model, self.nl),
+                    sel=[model_value(model, x) for x in self.sel] if isinstance(self.sel, tuple) else model_value(model, self.sel))
+
+    def concretize_without_model(self, inp):
+        return dict(kind=self.kind, nlays=4, sel=[1, 3] if self.kind == 'slice' else -2)
+
+    def replay(self, c):
+        import numpy as np
+        from rtc import harness as H, ioapi as IOH
+        P = H.real()
+        out = None
+        for cand in (c, dict(c, nlays=4, sel=[1, 3] if c['kind'] == 'slice' else -2)):
+            nz = int(cand['nlays'])
+            if not 1 <= nz <= 30:
+                continue
+            f = IOH.make_ioapi(P, nt=2, nz=nz, ny=3, nx=4)
+            vg = np.asarray(f.VGLVLS).copy()
+            sel = slice(int(cand['sel'][0]), int(cand['sel'][1])) if isinstance(cand['sel'], (list, tuple)) else int(cand['sel'])
+            try:
+                g = f.sliceDimensions(LAY=sel)
+            except Exception as e:
+                return False, dict(raised=type(e).__name__, message=str(e)[:160], LAY=repr(sel), nlays=nz)
+            idx = list(range(nz))[sel] if isinstance(sel, slice) else [range(nz)[sel]]
+            exp = vg[idx[0]:idx[-1] + 2]
+            got = np.atleast_1d(np.asarray(g.VGLVLS))
+            ok = got.shape == exp.shape and np.array_equal(got, exp)
+            r = (ok, dict(LAY=repr(sel), nlays=nz, VGLVLS=got.tolist(), expected=exp.tolist()))
+            if not ok:
+                return r
+            out = out or r
+        return out
 
 
 CONTRACTS += [SliceLevels('int'), SliceLevels('slice')]
@@ -285,6 +358,35 @@ class SliceTime(Contract):
     def on_raise(self, inp, exc, I):
         # an invalid time flag makes getTimes raise; nothing else may
         return [('raises-only-ValueError-from-an-invalid-time-flag (raised %s)' % exc, exc == 'ValueError')]
+
+
+    def concretize(self, model, inp):
+        return dict(kind=self.kind)
+
+    def concretize_without_model(self, inp):
+        return dict(kind=self.kind)
+
+    def replay(self, c):
+        """canonical file (5 hourly steps across a year end) and windows, through the real wrapper"""
+        import numpy as np
+        from rtc import harness as H, ioapi as IOH
+        P = H.real()
+        f = IOH.make_ioapi(P, nt=5, nz=2, ny=3, nx=4, sdate=2020366, stime=210000, tstep=10000)
+        tf0 = np.asarray(f.variables['TFLAG'][...]).copy()
+        v0 = np.asarray(f.variables['V0'][...]).copy()
+        sels = {'int': [-1, 2], 'slice': [slice(1, 4), slice(-3, -1)], 'index-array': [np.array([0, 3, 4]), np.array([4, 4, 1]), np.array([-1, 0])]}[c['kind']]
+        for sel in sels:
+            try:
+                g = f.sliceDimensions(TSTEP=sel)
+            except Exception as e:
+                return False, dict(raised=type(e).__name__, message=str(e)[:160], TSTEP=repr(sel))
+            rows = np.arange(5)[sel] if not np.isscalar(sel) else np.array([range(5)[sel]])
+            gt, gv = np.asarray(g.variables['TFLAG'][...]), np.asarray(g.variables['V0'][...])
+            if gt.shape[0] != len(rows) or not np.array_equal(gt[:, 0, :], tf0[rows, 0, :]) or not np.array_equal(gv, v0[rows]):
+                return False, dict(TSTEP=repr(sel), TFLAG=gt[:, 0, :].tolist(), expected=tf0[rows, 0, :].tolist())
+            if not np.array_equal(np.asarray(f.variables['TFLAG'][...]), tf0):
+                return False, dict(TSTEP=repr(sel), note='source time flags modified')
+        return True, dict(windows=[repr(x) for x in sels])
 
 
 CONTRACTS += [SliceTime('int'), SliceTime('slice'), SliceTime('index-array')]
